@@ -89,6 +89,26 @@ def fresh(prefix):
     return (prefix, next(_counter))
 
 
+def _key_size(k):
+    if isinstance(k, tuple):
+        return 1 + sum(_key_size(x) for x in k)
+    if isinstance(k, str):
+        return 1 + len(k) // 40
+    return 1
+
+
+class _Obligations(dict):
+    """an obligation may be evaluated several times (paths through a loop body, Houdini
+    iterations): it holds only if it held every time it was evaluated on a final iteration;
+    a later success never overwrites an earlier failure of the same round"""
+    def __setitem__(self, k, v):
+        old = self.get(k)
+        if old is not None and isinstance(old, tuple) and len(old) >= 3 and old[2] is False \
+                and isinstance(v, tuple) and len(v) >= 3 and v[2]:
+            return
+        super().__setitem__(k, v)
+
+
 class SymEval(Flow):
     """symbolic evaluator for one function.  Configuration hooks:
        pair_fields   (f1, f2): X.f1 and X.f2 of any object X have equal length
@@ -102,7 +122,7 @@ class SymEval(Flow):
         self.func = func
         self.pair_fields = pair_fields
         self.call_summary = call_summary
-        self.oblig = {}         # id(node) -> (node, kind, ok, text)
+        self.oblig = _Obligations()   # id(node) -> (node, kind, ok, text); a failure is sticky
         self.slices = []        # (node, base value, lo aff, hi aff, state) of the last pass
         self.indexes = {}       # id(node) -> (node, base Seq, index Aff, state)
         self.ret_states = []
@@ -168,8 +188,13 @@ class SymEval(Flow):
                 common[k] = v
         c = Aff(common, min(a.c, b.c))
         ra, rb = a - c, b - c
-        atom = ('nn' if nonneg or (self._nn(ra) and self._nn(rb)) else 'phi', ra.key(), rb.key())
-        return c + Aff.atom(atom)
+        ka, kb = ra.key(), rb.key()
+        kind = 'nn' if nonneg or (self._nn(ra) and self._nn(rb)) else 'phi'
+        if _key_size(ka) + _key_size(kb) > 400:
+            # joins of joins of joins ...: the relational name would grow exponentially with
+            # the number of merged paths; fall back to an opaque (imprecise) atom
+            return c + Aff.atom((kind, fresh('wide'), 0))
+        return c + Aff.atom((kind, ka, kb))
 
     @staticmethod
     def _nn(e):
